@@ -1508,7 +1508,7 @@ func runC19(c *Ctx) {
 	if c.Drv != nil && os.Getenv("C19_ONLY_CORPUS") == "" {
 		nx := 120
 		if c.Thorough {
-			nx = 400
+			nx = 300
 		}
 		c19GraphExtra(c, nx)
 	}
